@@ -232,7 +232,7 @@ func runC11(r *mc.Run) {
 		depth = 7
 		r.SetBudget(10 * 60 * 1e9)
 	} else {
-		r.SetBudget(150 * 1e9)
+		r.SetBudget(300 * 1e9)
 	}
 	r.Bounds["depth_blocks"] = depth
 	r.Rule = "DFS over locking histories (create/lock/unlock with dust and unit amounts, weight/threshold changes, absent votes, evidence, time deltas, a rolled-back batch); oracle = per-token step identity delta(held+slashed+queued)+delivered = locked, unlock <= request and <= holding, nothing negative"
